@@ -233,6 +233,15 @@ func c12Case(t *rapid.T, ev *evProp, realDKG bool) {
 			if want := len(accepted) >= th; d.EnoughPartialSig() != want {
 				violationOrKnown(t, ev, key("enough"), "participant %d: EnoughPartialSig=%v with %d distinct valid partials (t=%d)\n%s %s", r, d.EnoughPartialSig(), len(accepted), th, ctx, h)
 			}
+			// an impatient caller probes Signature() while partials are still arriving: an error below
+			// t, and no lasting effect on what the object does later
+			if rapid.IntRange(0, 3).Draw(t, fmt.Sprintf("probe%d.%d", r, k)) == 0 {
+				_, perr := d.Signature()
+				h += " probe"
+				if (perr == nil) != (len(accepted) >= th) {
+					violationOrKnown(t, ev, key("signature-probe"), "participant %d: Signature() probed with %d accepted partials (t=%d) returns err=%v\n%s %s", r, len(accepted), th, perr, ctx, h)
+				}
+			}
 		}
 		if !accepted[r] {
 			signOwn() // signAt == number of deliveries: own partial last
@@ -312,7 +321,7 @@ const c12Rule = "case = Ed25519, n in 3..7, t in [n/2+1, n] (1/4 of the cases: a
 	"1..n receiving participants each get their own random subset of the other participants' partial signatures in a random order, with injected partials before 1/3 of them from {value+1, value+1 re-signed by its owner, signed by another participant, partial of another session, other-session value relabelled with this session id and re-signed, duplicate, index >= n, another participant's index re-signed by that participant, corrupted signature, nil session id}. " +
 	"Oracle: an injected invalid partial returns an error and does not change EnoughPartialSig; valid ones are accepted; EnoughPartialSig <=> >= t distinct accepted (own included); Signature errors below t; otherwise it verifies with dss.Verify, eddsa.Verify, schnorr.Verify and crypto/ed25519.Verify under the distributed key, and all participants derive byte-identical signatures. " +
 	"non-trivial = at least one injected partial or an out-of-index-order delivery; distinct = distinct rendered case" +
-	" Added after the sensitivity rounds: long-term and one-time thresholds drawn independently (T = max); each receiver issues its own partial at a generated position of its delivery sequence; after Signature() the returned bytes are overwritten, late valid partials must be accepted, a late invalid one refused, PartialSig() and Signature() unchanged."
+	" Added after the sensitivity rounds: long-term and one-time thresholds drawn independently (T = max); each receiver issues its own partial at a generated position of its delivery sequence; Signature() is probed at generated points of the delivery sequence (error below t, no lasting effect); after Signature() the returned bytes are overwritten, late valid partials must be accepted, a late invalid one refused, PartialSig() and Signature() unchanged."
 
 func TestC12_DSS(t *testing.T) {
 	ev := evFor("C12")
